@@ -48,7 +48,7 @@ STATUS = {
  "C14": ("full for the crash model (process kill observed; power loss model only)", "`C14_crash_safe`, `C14_cache_file_old_or_new_after_kill`, `…_after_power_loss`, `C14_cachefile_roundtrip`"),
  "C15": ("full (ledger model and per-security pipeline)", "`C15_neutral`, `C15_pipeline`, `C15_gains_and_sfl`, `C15_row_figures`, `C15_global_eq_per_affiliate`"),
  "C16": ("full (ledger and per-security pipeline)", "`C16_equiv`, `C16_pipeline`, `C16_other_securities`, `C16_parsed_first`"),
- "C17": ("full", "`C17_day_figures`, `C17_yearly_is_max`, `C17_row_total`, `C17_no_panic`, `C17_ledger_rows_wf` (the theorems' precondition proved for the ledger's output), `C17_ledger_costs_no_panic`, …"),
+ "C17": ("full", "`C17_day_figures`, `C17_yearly_is_max`, `C17_row_total`, `C17_no_panic`, `C17_ledger_rows_wf` (the theorems' precondition proved for the ledger's output), `C17_ledger_costs_no_panic`, `C17_pipeline_rows_wf`, `C17_pipeline_costs_no_panic` (the same for every input of the pipeline model), …"),
  "C18": ("full (sheet conversion model)", "`C18_one_row_per_trade`, `C18_cash_conservation`, `C18_layout_independent`, `C18_accepted_by_acb`, …"),
  "C19": ("full (matching model)", "`C19_partition`, `C19_unmatched_is_error`, `C19_found_set_is_a_match`, `C19_sorted`, …"),
  "C20": ("pages full; table extraction **partial**", "`C20_visit_all_pages`, `C20_chunks_cover`, `C20_statement_partial`, `C20_numeric_tail_counterexample`"),
